@@ -5,7 +5,7 @@ import random
 import core
 import decsuite as ds
 
-THEOREMS = ["C14.c14_rows_are_blocks", "C14.c14_blocks_partition", "C14.c14_decoder_rows", "C14.run_inRun", "C14.c14_warnings_once", "C14.prettyGo_info", "C14.c14_decoder_hex", "C14.c14_accepted_hex_is_input", "C14.decoder_classes", "C14.streamBytes_eq", "C14.decoder_shaped", "C14.c14_shape_tables", "C14.c14_decoder_total", "runWalker_gd", "decode_gd", "decodeCommand_gd",
+THEOREMS = ["C14.c14_rows_are_blocks", "C14.c14_blocks_partition", "C14.c14_decoder_rows", "C14.c14_buffers_are_blocks", "C14.run_inRun", "C14.c14_warnings_once", "C14.prettyGo_info", "C14.c14_decoder_hex", "C14.c14_accepted_hex_is_input", "C14.decoder_classes", "C14.streamBytes_eq", "C14.decoder_shaped", "C14.c14_shape_tables", "C14.c14_decoder_total", "runWalker_gd", "decode_gd", "decodeCommand_gd",
             "decodeResponse_gd", "decodeStream_gm", "C14.c14_total_b", "C14.shaped_of_b", "C14.c14_hex", "C14.c14_hex_top", "C14.c14_row_columns", "C14.c14_total", "C14.c14_total_top",
             "C14.foldBytes_hex", "C14.foldElems_hex", "C14.c14_events_rows"]
 
@@ -15,7 +15,10 @@ def run(ctx, replay_case):
     rnd = random.Random(ctx.seed)
     L, cases = C07.build_inputs(ctx, rnd)
     if ctx.tier == "quick":
-        cases = rnd.sample(cases, min(len(cases), 5000))
+        keep = [c for c in cases if c.kind == "nested_same_fault"]
+        keep = rnd.sample(keep, min(len(keep), 800))
+        other = [c for c in cases if c.kind != "nested_same_fault"]
+        cases = keep + rnd.sample(other, min(len(other), 5000 - len(keep)))
     ops = [c.op(m, "PRINT") for c in cases for m in "SW"]
     owners = [(c, m) for c in cases for m in "SW"]
     impl = core.run_impl(ops)
@@ -39,7 +42,7 @@ def run(ctx, replay_case):
         kline = next((l for l in b if l.startswith("K ")), "K ?")
         stats["shaped" if kline == "K 1" else "not shaped"] += 1
         if kline != "K 1":
-            problem = "the decoder produced an event stream outside the hypothesis of the printers' totality theorem (a value of no primitive class, or a byte-buffer child without a value)"
+            problem = "the decoder produced an event stream outside the hypothesis of the printers' totality theorem (a value of no primitive class, a byte-buffer child without a value, or a list whose run is ended by a byte-buffer parent)"
         elif any(l.startswith("P crash") or "?unparsed" in l for l in prow):
             problem = "pretty printer failed: " + next(l for l in prow if "crash" in l or "?unparsed" in l)
         elif any(l.startswith("E crash") or "?unparsed" in l for l in erow):
